@@ -229,6 +229,30 @@ class C06(Check):
                 full = hdr + mtx + varint(n) + b"".join(lv)
                 self.full[hx(full)] = (hdr, mtx, lv)
                 add("blockfull " + hx(full), "block-other-miner-slot-from-bytes")
+        # the listed hashes are data, whatever they contain: the miner transaction's own id among them (first, middle, last, twice),
+        # repeated hashes, the null hash - every one of them stays a leaf of the tree and is counted in the blob
+        for mtx in miner_txs + other[:2]:
+            mh_ = self.mh(mtx)
+            for n in (1, 2, 3, 4, 5):
+                base_lv = self.leaves(rng, n)
+                for posn in sorted({0, n // 2, n - 1}):
+                    for variant in ("insert", "replace"):
+                        lv = list(base_lv)
+                        if variant == "insert":
+                            lv.insert(posn, mh_)
+                        else:
+                            lv[posn] = mh_
+                        hdr = self.header(rng)
+                        add("blockparts %s %s %s %s" % (hx(hdr), hx(mtx), hx(mh_), hx(b"".join(lv))), "block-miner-id-listed")
+                        full = hdr + mtx + varint(len(lv)) + b"".join(lv)
+                        self.full[hx(full)] = (hdr, mtx, lv)
+                        add("blockfull " + hx(full), "block-miner-id-listed-from-bytes")
+            for lv in ([mh_, mh_], [mh_] * 3, [b"\x00" * 32], [b"\x00" * 32, mh_], [base_lv[0]] * 4):
+                hdr = self.header(rng)
+                add("blockparts %s %s %s %s" % (hx(hdr), hx(mtx), hx(mh_), hx(b"".join(lv))), "block-repeated-hashes")
+                full = hdr + mtx + varint(len(lv)) + b"".join(lv)
+                self.full[hx(full)] = (hdr, mtx, lv)
+                add("blockfull " + hx(full), "block-repeated-hashes-from-bytes")
         for n in sorted(counts):
             for mtx in miner_txs:
                 for _ in range(2 if n <= 16 else 1):
